@@ -479,7 +479,9 @@ def c18(seed, n, inproc=None):
             v, dd = k1lib.compare_view(sub[i], model[i], view, errkind=False)
             if v == 'diff':
                 kdiffs.append(dict(stream='c18-features', case=i, input=c.rust(), detail='features [%s]: %s' % (' '.join(F), dd)))
-            partners_present = all(q in F for t in named for q in PARTNERS.get(t, []))
+            # the one coupling through a *feature* (C18_same_code's second hypothesis): Ord educed without PartialOrd reads the
+            # PartialOrd feature for its `Self: PartialOrd` predicate; every other partner is read from the educed trait list only
+            partners_present = not ('Ord' in named and 'PartialOrd' not in named and 'PartialOrd' not in F)
             if named <= set(F) and not partners_present:
                 # the property compares with the all-features build "given the same coupled partners are
                 # present": e.g. Ord reads the PartialOrd *feature* for its `Self: PartialOrd` predicate
